@@ -2,42 +2,43 @@
 import os
 import vf
 
-# the constants of spec/ConnCtrl_MC.tla (kept in one place; the TLC run prints nothing about them)
-DIR = {c: ("out" if c.startswith("o") else "in") for c in ("i1", "i2", "i3", "i4", "i5", "i6", "o1", "o2", "o3", "o4")}
-IP = {"i6": "A", "i1": "A", "i2": "A", "i3": "B", "i4": "B", "i5": "C", "o1": "D", "o2": "E", "o3": "D", "o4": "A"}
-ADDR = {"i6": "A:1", "i1": "A:1", "i2": "A:2", "i3": "B:1", "i4": "B:2", "i5": "C:1", "o1": "D:9", "o2": "E:9", "o3": "D:9", "o4": "A:9"}
-LISTEN = {"i6": "A:9", "i1": "A:9", "i2": "A:8", "i3": "B:9", "i4": "B:9", "i5": "C:9", "o1": "D:9", "o2": "E:9", "o3": "D:9", "o4": "A:9"}
-KID = {"i6": "k1", "i1": "k1", "i2": "k2", "i3": "k3", "i4": "k3", "i5": "k1", "o1": "k4", "o2": "k5", "o3": "k4", "o4": "k1"}
+# the abstract constants of spec/ConnCtrl_MC.tla (kept in one place).  The TEXTS of the addresses are not repeated here: the
+# model computes them per address plan (ConnCtrl.tla AddrTab / LsnTab) and prints them with every initial state (NOTE).
+ALL = ("i1", "i2", "i3", "i4", "i5", "i6", "i7", "o1", "o2", "o3", "o4")
+DIR = {c: ("out" if c.startswith("o") else "in") for c in ALL}
+IP = {"i6": "A", "i1": "A", "i2": "A", "i7": "A", "i3": "B", "i4": "B", "i5": "C", "o1": "D", "o2": "E", "o3": "D", "o4": "A"}
+KID = {"i6": "k1", "i1": "k1", "i2": "k2", "i7": "k7", "i3": "k3", "i4": "k3", "i5": "k1", "o1": "k4", "o2": "k5", "o3": "k4", "o4": "k1"}
 UNIVERSE = {"ConnsQ3": ["i1", "i6", "i2", "i3"], "ConnsQ": ["i1", "i2", "i3", "o1", "o2"], "ConnsQ2": ["i1", "i5", "o1", "o3", "o4"],
+            "ConnsF": ["i1", "i2", "i7", "i3"], "ConnsF2": ["i1", "i2", "i7", "i3", "o4"],
             "ConnsT": ["i1", "i2", "i3", "i4", "o1", "o2", "o3"], "ConnsT2": ["i1", "i2", "i5", "o1", "o3", "o4"]}
-
-REAL_IP = {"A": "10.0.0.1", "B": "10.0.0.2", "C": "10.0.0.3", "D": "10.0.0.4", "E": "10.0.0.5"}
-REAL_PORT = {"1": "30001", "2": "30002", "8": "20339", "9": "20338"}
-
-
-def real_addr(a):
-    ip, port = a.split(":")
-    return REAL_IP[ip] + ":" + REAL_PORT[port]
+PLANSETS = {"PlansBase": ["v4"], "PlansForms": ["v6", "v4prefix", "v6prefix", "mixed"], "PlansV6": ["v6"],
+            "PlansAll": ["v4", "v6", "v4prefix", "v6prefix", "mixed"]}
+BASE_PLAN = "v4"
 
 
-MODEL_ADDR = {real_addr(a): a for a in set(ADDR.values()) | set(LISTEN.values())}
-MODEL_IP = {v: k for k, v in REAL_IP.items()}
+def plan_suffix(plan):
+    """violation keys of the base plan (plain IPv4) carry no suffix (the keys of known_findings.d/C36-check-then-act.json);
+    an overshoot observed with another textual form of the remote addresses names that form"""
+    return "" if plan == BASE_PLAN else "@" + plan
+
 
 # violation keys: <entry point>:<limit>:<cause>
 KIND_KEY = {"in": "AcceptConnect:inbound-limit", "ip": "AcceptConnect:per-ip-limit", "out": "Connect:outbound-limit"}
 RACE_KEYS = [k + ":stale-check" for k in KIND_KEY.values()]
 
 
-def cfg_text(conns, max_in, max_ip, max_out, check_then_act, split, invariants, export, snap=True):
+def cfg_text(conns, max_in, max_ip, max_out, check_then_act, split, invariants, export, snap=True, plans="PlansBase"):
     t = """SPECIFICATION Spec
 CONSTANTS
   Conns <- %s
   Dir <- DirM
   IpOf <- IpM
-  AddrOf <- AddrM
-  ListenOf <- ListenM
+  PortOf <- PortM
+  LPortOf <- LPortM
   KidOf <- KidM
-  IpOfAddr <- IpOfAddrM
+  Plans <- %s
+  PlanTab <- PlanM
+  ListenAsCoded = TRUE
   MaxIn = %d
   MaxPerIp = %d
   MaxOut = %d
@@ -47,28 +48,45 @@ CONSTANTS
 VIEW view
 CHECK_DEADLOCK FALSE
 INVARIANTS %s
-""" % (conns, max_in, max_ip, max_out, "TRUE" if check_then_act else "FALSE", "TRUE" if split else "FALSE",
+""" % (conns, plans, max_in, max_ip, max_out, "TRUE" if check_then_act else "FALSE", "TRUE" if split else "FALSE",
        "TRUE" if snap else "FALSE", " ".join(invariants))
     if export:
         t += "CONSTRAINT InitOut\nACTION_CONSTRAINT Edge\n"
     return t
 
 
-def tlc(ctx, name, conns, lim, check_then_act, split, invariants, export, workers=None, timeout=1500, snap=None):
+def tlc(ctx, name, conns, lim, check_then_act, split, invariants, export, workers=None, timeout=1500, snap=None, plans="PlansBase"):
     if snap is None:
         # ghost snapshots refine the replayed (coarse) graphs; the 7-connection universe stays at plain state identity
         snap = export and conns != "ConnsT"
     cfg = "ConnCtrl_gen_%s.cfg" % name
     r = ctx.tlc("ConnCtrl_MC", cfg=cfg, workers=1 if export else workers, timeout=timeout,
-                files={cfg: cfg_text(conns, lim[0], lim[1], lim[2], check_then_act, split, invariants, export, snap)})
-    ctx.log("TLC %s (%s in=%d ip=%d out=%d cta=%s split=%s): %s, %d generated, %d distinct, depth %d, %.1fs" % (
-        name, conns, lim[0], lim[1], lim[2], check_then_act, split, r.status if not r.violated else "violated " + r.violated,
+                files={cfg: cfg_text(conns, lim[0], lim[1], lim[2], check_then_act, split, invariants, export, snap, plans)})
+    ctx.log("TLC %s (%s %s in=%d ip=%d out=%d cta=%s split=%s): %s, %d generated, %d distinct, depth %d, %.1fs" % (
+        name, conns, plans, lim[0], lim[1], lim[2], check_then_act, split, r.status if not r.violated else "violated " + r.violated,
         r.generated, r.distinct, r.depth, r.wall))
     return r
 
 
+class Prefetch:
+    """the TLC runs of a check are independent of each other and of the go build: they are started ahead in a small
+    thread pool (each is a JVM subprocess) and consumed in order"""
+
+    def __init__(self, ctx, max_workers):
+        from concurrent.futures import ThreadPoolExecutor
+        self.ctx = ctx
+        self.pool = ThreadPoolExecutor(max_workers=max_workers)
+        self.futs = {}
+
+    def submit(self, name, *args, **kw):
+        self.futs[name] = self.pool.submit(tlc, self.ctx, name, *args, **kw)
+
+    def get(self, name):
+        return self.futs.pop(name).result()
+
+
 def norm_state(s):
-    return {"pc": s["pc"], "inb": sorted(s["inb"]), "outb": sorted(s["outb"]), "lsn": sorted(s["lsn"]),
+    return {"plan": s.get("plan", BASE_PLAN), "pc": s["pc"], "inb": sorted(s["inb"]), "outb": sorted(s["outb"]), "lsn": sorted(s["lsn"]),
             "cing": sorted(s["cing"]), "peers": s["peers"], "snap": s.get("snap", {})}
 
 
@@ -92,9 +110,14 @@ def shortest_witnesses(edges, inits, lim):
     adj = {}
     for e in edges:
         adj.setdefault(vf.canon(e["from"]), []).append(e)
-    start = vf.canon(inits[0])
-    prev = {start: None}
-    q = [start]
+    prev = {}
+    q = []
+    root = {}
+    for s0 in inits:     # one initial state per address plan
+        k = vf.canon(s0)
+        prev[k] = None
+        root[k] = s0
+        q.append(k)
     found = {}
     qi = 0
     while qi < len(q):
@@ -113,14 +136,27 @@ def shortest_witnesses(edges, inits, lim):
                         x, ee = prev[x]
                         steps.append({"act": ee["act"], "to": ee["to"]})
                     steps.reverse()
-                    found[kind] = {"init": inits[0], "steps": steps}
+                    found[kind] = {"init": root[x], "steps": steps}
             q.append(v)
     return found
 
 
-def replay(ctx, binary, conns, lim, paths, tag):
-    inp = {"conns": {c: {"dir": DIR[c], "ip": REAL_IP[IP[c]], "addr": real_addr(ADDR[c]), "listen": real_addr(LISTEN[c]),
-                         "kid": KID[c]} for c in conns},
+def plan_tables(notes, conns):
+    """the texts the model computed for every connection attempt, per address plan (NOTE prints of the initial states)"""
+    tabs = {}
+    for n in notes:
+        if isinstance(n, dict) and "plan" in n and "conns" in n:
+            tabs[n["plan"]] = {c: dict(n["conns"][c], dir=DIR[c], kid=KID[c]) for c in conns}
+    return tabs
+
+
+def path_plan(p):
+    return p["init"].get("plan", BASE_PLAN)
+
+
+def replay(ctx, binary, conns, lim, paths, tag, tabs):
+    # every attempt gets the remote address text / dial address / announced listen port of the path's address plan
+    inp = {"plans": tabs, "pathPlan": [path_plan(p) for p in paths],
            "maxIn": lim[0], "maxPerIp": lim[1], "maxOut": lim[2],
            "paths": [[{"name": s["act"]["name"], "c": s["act"]["c"], "res": s["act"]["res"]} for s in p["steps"]] for p in paths]}
     fin = os.path.join(ctx.scratch, "replay-%s.in.json" % tag)
@@ -165,7 +201,7 @@ def classify(path, si, kind, probe_conn=None):
     return "check-admits-beyond-limit"
 
 
-def judge(ctx, paths, obs, lim, conns, stats):
+def judge(ctx, paths, obs, lim, conns, stats, tabs):
     """property oracle on the REAL counts + conformance with the model after every step"""
     by_path = {}
     for o in obs:
@@ -173,6 +209,9 @@ def judge(ctx, paths, obs, lim, conns, stats):
     drift = 0
     for pi, p in enumerate(paths):
         rec = by_path.get(pi, [])
+        plan = path_plan(p)
+        tab = tabs[plan]
+        stats["paths_by_plan"][plan] = stats["paths_by_plan"].get(plan, 0) + 1
         if not rec:
             ctx.infra("path %d was not executed" % pi)
             continue
@@ -211,14 +250,15 @@ def judge(ctx, paths, obs, lim, conns, stats):
                     # live connections above the limit after the real controller admitted an attempt the model refuses
                     # (e.g. a reconnect from a still recorded remote address: the record then under-counts)
                     cause = "after-admitting-%s-attempt" % p["steps"][si - 1]["act"]["res"]
-                key = KIND_KEY[kind] + ":" + cause
+                key = KIND_KEY[kind] + ":" + cause + plan_suffix(plan)
+                d["address_plan"] = plan
                 d["schedule"] = sched_text(p, si) + "".join(" +" + x for x in extra)
                 stats["overshoots"][key] = stats["overshoots"].get(key, 0) + 1
                 sch = schedule(p, si)
                 for x in extra:
                     sch.append({"name": x.split("(")[0], "c": x.split("(")[1].rstrip(")")})
-                ctx.violation(key, d, {"limits": {"maxIn": lim[0], "maxPerIp": lim[1], "maxOut": lim[2]},
-                                       "conns": {c: {"dir": DIR[c], "ip": IP[c], "addr": ADDR[c], "kid": KID[c]} for c in conns},
+                ctx.violation(key, d, {"limits": {"maxIn": lim[0], "maxPerIp": lim[1], "maxOut": lim[2]}, "address_plan": plan,
+                                       "conns": {c: {"dir": DIR[c], "ip": tab[c]["ip"], "addr": tab[c]["addr"], "kid": KID[c]} for c in conns},
                                        "schedule": sch})
             if o.get("probe"):
                 continue
@@ -228,8 +268,7 @@ def judge(ctx, paths, obs, lim, conns, stats):
             st = p["steps"][si - 1]
             # ---- conformance (a difference that is not an overshoot is model drift, never a verdict)
             to = norm_state(st["to"])
-            real = {"inb": sorted(MODEL_ADDR.get(a, a) for a in o["inb"]), "outb": sorted(MODEL_ADDR.get(a, a) for a in o["outb"]),
-                    "lsn": sorted(MODEL_ADDR.get(a, a) for a in o["lsn"]), "cing": sorted(MODEL_ADDR.get(a, a) for a in o["cing"])}
+            real = {"inb": sorted(o["inb"]), "outb": sorted(o["outb"]), "lsn": sorted(o["lsn"]), "cing": sorted(o["cing"])}
             diff = None
             res = o["res"]
             if st["act"]["res"] == "rej-limit" and st["act"]["name"] == "Save" and res in ("rej-full", "rej-ip"):
@@ -242,8 +281,8 @@ def judge(ctx, paths, obs, lim, conns, stats):
                         diff = (f, real[f], to[f])
                         break
                 if diff is None:
-                    mp = {k: (ADDR[c] if c != "none" else None) for k, c in to["peers"].items()}
-                    rp = {k: MODEL_ADDR.get(o["peers"].get(k), o["peers"].get(k)) for k in mp}
+                    mp = {k: (tab[c]["addr"] if c != "none" else None) for k, c in to["peers"].items()}
+                    rp = {k: o["peers"].get(k) for k in mp}
                     if mp != rp:
                         diff = ("peers", rp, mp)
             if diff:
